@@ -1077,14 +1077,22 @@ class BootstrapElectionModel(BaseElectionModel):
             contest_indicator = pd.get_dummies(all_units["postal_code-district"])
             postal_code_indicator = pd.get_dummies(all_units["postal_code"])
 
+            # which contests get an effect of their own is decided by the expected units only,
+            # so that an unexpected unit in the feed cannot change the model of every other unit
+            expected_units = all_units[: (n_train + n_test)]
+
             # drop districts that are at-large districts for a state
-            postal_code_filter = all_units.groupby("postal_code")["postal_code-district"].nunique() > 1
+            postal_code_filter = expected_units.groupby("postal_code")["postal_code-district"].nunique() > 1
             valid_postal_codes = postal_code_filter[postal_code_filter].index
-            valid_districts = all_units[all_units.postal_code.isin(valid_postal_codes)]["postal_code-district"].unique()
+            valid_districts = expected_units[expected_units.postal_code.isin(valid_postal_codes)][
+                "postal_code-district"
+            ].unique()
             contest_indicator_filtered = contest_indicator.loc[:, valid_districts]
 
             # drop contest indicators if there are fewer than 10 units in contest
-            contest_indicator_filtered = contest_indicator_filtered.loc[:, contest_indicator.sum(axis=0) > 10]
+            contest_indicator_filtered = contest_indicator_filtered.loc[
+                :, contest_indicator[: (n_train + n_test)].sum(axis=0) > 10
+            ]
 
             self.aggregate_names = {
                 c: i
